@@ -1,7 +1,10 @@
 (** Model of qexpy/utils/printing.py (value +/- uncertainty formatting) in exact rationals.
     Definitions only.  The two kinds of rounding the code performs -- Python's [round(x)]
     (stage 1, in [__round_values_to_sig_figs]) and ["{:.{d}f}".format(x)] (stage 2) -- and
-    the order-of-magnitude function [floor(log10 |x|)] are PARAMETERS of the model
+    the order-of-magnitude function [floor(log10 |x|)] are PARAMETERS of the model;
+    the integer arithmetic (exponent of the back-off, number of decimals and its clamp, the
+    tolerance of [order_of]) is GENERATED from the source text on every run (Gen/PrintingGen.v:
+    [gen_back_off_exp_err], [gen_back_off_exp_val], [gen_decimals_exp], [gen_clamp], [gen_snap_*])
     ([rounders], [ord]); the theorems of Proofs/Printing.v hold for every choice of them that
     rounds to within half a unit, the correspondence runs the model with round-half-even.
 
@@ -14,6 +17,7 @@
     __find_number_of_decimals, order_of        [find_decimals]   ([None] = math domain error), [order_of]
     the printed string                         [output]: mantissa integers, decimals, exponent *)
 From Coq Require Import ZArith QArith Qabs Qround Qpower Bool List.
+From QV Require Import Gen.PrintingGen.
 Import ListNotations.
 Open Scope Q_scope.
 
@@ -52,19 +56,19 @@ Variable rd : rounders.
 Definition round_values (c : cfg) (v e : Q) : Q * Q :=
   if uses_error (c_mode c) then
     if is_zero e then (v, e)
-    else let back_off := pow10 (ord e - c_n c + 1) in
+    else let back_off := pow10 (gen_back_off_exp_err (ord e) (c_n c)) in
          (inject_Z (r_val rd (v / back_off)) * back_off, inject_Z (r_err rd (e / back_off)) * back_off)
   else
     if is_zero v then (v, e)
-    else let back_off := pow10 (ord v - c_n c + 1) in
+    else let back_off := pow10 (gen_back_off_exp_val (ord v) (c_n c)) in
          (inject_Z (r_val rd (v / back_off)) * back_off, inject_Z (r_err rd (e / back_off)) * back_off).
 
 (** the local helper [order_of] of __find_number_of_decimals: a number that is less than a
     relative 1e-14 below a power of ten has the order of magnitude of that power of ten *)
-Definition snap_factor : Q := 1 - (1 # 100000000000000).
+Definition snap_factor : Q := gen_snap_factor.          (* 1 - 1e-14 in the source today *)
 Definition order_of (x : Q) : Z :=
   let result := ord x in
-  if Qle_bool (pow10 (result + 1) * snap_factor) (Qabs x) then (result + 1)%Z else result.
+  if Qle_bool (pow10 (gen_snap_next result) * snap_factor) (Qabs x) then gen_snap_bump result else result.
 
 (** __find_number_of_decimals; [None] when log10 is applied to 0 *)
 Definition find_decimals (c : cfg) (v e : Q) : option Z :=
@@ -72,7 +76,7 @@ Definition find_decimals (c : cfg) (v e : Q) : option Z :=
              then (if is_zero e then v else e)
              else (if is_zero v then e else v) in
   if is_zero ref then None
-  else Some (Z.max 0 (- order_of ref + c_n c - 1)).
+  else Some (gen_clamp (gen_decimals_exp (order_of ref) (c_n c))).
 
 (** division by 10**order in the scientific printer; absent in the default printer *)
 Definition conv (ex : option Z) (x : Q) : Q :=
